@@ -12,6 +12,10 @@ os.environ.setdefault("MPLBACKEND", "Agg")
 os.environ.setdefault("OMP_NUM_THREADS", "1")
 os.environ.setdefault("OPENBLAS_NUM_THREADS", "1")
 
+import warnings  # noqa: E402
+
+warnings.simplefilter("ignore")
+
 from pbt import core  # noqa: E402
 
 if __name__ == "__main__":
